@@ -133,3 +133,6 @@ def obligations(ctx):
     # change outputs: every output the balancing step creates passes the admission check (shared exploration with C05 / C06)
     from obl.c05 import change_step
     change_step(ctx, record=("c07",), rounds=1)
+    # the size compared with max_tx_size counts one mock key witness per counted key: the mock keys may not collide (shared with C18)
+    from obl.c18 import mock_keys_injective
+    mock_keys_injective(ctx)
